@@ -89,6 +89,8 @@ class Interp:
         from . import models
         self.models = models
         models.install(self)
+        for m in program.c_modules.values():
+            self.init_c_module(m)
         for m in program.pyx.values():
             self.init_pyx_module(m)
 
@@ -219,6 +221,21 @@ class Interp:
         return self.ctx.decide(c)
 
     # ---------------------------------------------------------------- module init
+    def init_c_module(self, m):
+        m.globals = {name: V.RealTable(name, vals) for name, vals in m.c_tables.items()}
+        m.initialised = True
+        fr = Frame(None, m, TRUE)
+        fr.env = m.globals
+        saved = (self.frame, self.g)
+        self.frame, self.g = fr, TRUE
+        try:
+            self.exec_block(m.tree.body)
+        finally:
+            self.frame, self.g = saved
+        for k, v in m.globals.items():
+            if isinstance(v, IFunc):
+                self.prog.cfuncs[k] = v
+
     def init_pyx_module(self, m):
         if m.initialised:
             return
@@ -804,6 +821,9 @@ class Interp:
         ext = self.models.EXTERN.get(name)
         if ext is not None:
             return ext
+        cf = self.prog.cfuncs.get(name) if isinstance(mod, IModule) else None
+        if cf is not None:
+            return cf
         if hasattr(_pybuiltins, name):
             return getattr(_pybuiltins, name)
         raise NameError(name)
@@ -924,10 +944,11 @@ class Interp:
                 lo, hi = v.lo, v.hi
                 if lo is None or hi is None or lo < t.lo or hi > t.hi:
                     if not t.signed:
-                        # conversion to unsigned is defined (modulo); keep it exact when in range
-                        self.oblige(z3.And(v.e >= t.lo, v.e <= t.hi), "value out of range of %s in %s" % (ctype, what), "overflow")
-                    else:
-                        self.oblige(z3.And(v.e >= t.lo, v.e <= t.hi), "signed overflow of %s in %s" % (ctype, what), "overflow")
+                        # conversion of an integer to an unsigned type is defined: value modulo 2^bits
+                        if V.INT_BITS:
+                            raise Unsupported("unsigned wrap in bit-vector integer mode")
+                        return mk_int(v.e % (1 << t.bits), 0, t.hi)
+                    self.oblige(z3.And(v.e >= t.lo, v.e <= t.hi), "signed overflow of %s in %s" % (ctype, what), "overflow")
                     v = SInt(v.e, t.lo if lo is None else max(lo, t.lo), t.hi if hi is None else min(hi, t.hi), v.ite, v.cases, v.dom)
                 return v
             if isinstance(v, bool):
